@@ -6,7 +6,7 @@ open Yaclib.Extracted
 
 theorem idsStep_eq (id : Nat) (sig : Sig) (mode : Mode) (beh : Beh) :
     idsStep (.mk id sig mode beh) = id :: (match beh with | .async _ _ steps => idsSteps steps | _ => []) := by
-  cases beh <;> rw [idsStep]
+  cases beh <;> rw [idsStep] <;> (try intros; simp_all)
 
 mutual
   theorem specCall_invoked (cfg : Cfg) : ∀ (s : Step) (input : R) (own : Exec) (subs inv : List Nat),
